@@ -86,12 +86,13 @@ func forHistories(ops []histOp, depth int, f func(h []histOp)) {
 	radices := make([]int, 0, depth)
 	for d := 1; d <= depth; d++ {
 		radices = append(radices, len(ops))
-		vlib.Product(radices, func(ix []int) {
+		vlib.Product(radices, func(ix []int) bool {
 			h := make([]histOp, len(ix))
 			for i, k := range ix {
 				h[i] = ops[k]
 			}
 			f(h)
+			return true
 		})
 	}
 }
@@ -225,6 +226,30 @@ func checkCategoricalHistories(t *vlib.T, init []float64, depth int) {
 	t.Outcome(fmt.Sprintf("Categorical n=%d", n))
 }
 
+// probeSrc answers the uniform draws of a history from a script and, once final is set, with the probe answer.
+type probeSrc struct {
+	a      *alphabet
+	script []int
+	n      int
+	probe  int
+	final  bool
+	used   bool
+	cont   splitmix
+}
+
+func (p *probeSrc) Uint64() uint64 {
+	if p.final {
+		if !p.used {
+			p.used = true
+			return p.a.u[kindUnif][p.probe]
+		}
+		return p.cont.next()
+	}
+	k := p.script[p.n%len(p.script)]
+	p.n++
+	return p.a.u[kindUnif][k]
+}
+
 func checkWeightedHistories(t *vlib.T, init []float64, depth int) {
 	r := &rep{t: t}
 	t.Nontrivial()
@@ -240,16 +265,9 @@ func checkWeightedHistories(t *vlib.T, init []float64, depth int) {
 		script := []int{5, 29, 14, 0, 31, 9}
 		build := func(lastAnswer int) (sampleuv.Weighted, []float64, bool) {
 			model := append([]float64(nil), init...)
-			// every Take consumes one answer: the takes of the history get the script, the probe
-			// after it the last answer
-			takes := 0
-			for _, op := range h {
-				if op.kind == "take" {
-					takes++
-				}
-			}
-			ans := append(append([]int(nil), script[:takes]...), lastAnswer)
-			s := sampleuv.NewWeighted(init, newScript(K, ans...))
+			// the takes of the history are answered from the script, the probe after it with lastAnswer
+			src := &probeSrc{a: getAlphabet(K), script: script, probe: lastAnswer}
+			s := sampleuv.NewWeighted(init, src)
 			for step, op := range h {
 				arg := fmt.Sprint(h[:step+1])
 				switch op.kind {
@@ -277,6 +295,7 @@ func checkWeightedHistories(t *vlib.T, init []float64, depth int) {
 					model[i] = 0
 				}
 			}
+			src.final = true
 			return s, model, true
 		}
 		_, model, ok := build(0)
